@@ -854,12 +854,20 @@ func GenC13(r *hx.Rand, thorough bool) History {
 			h.Ops = append(h.Ops, Op{K: "ins", A: 2 + r.Intn(6), B: ps + r.Intn(2*ps)}, Op{K: "sync"})
 		}
 	}
-	if r.Chance(6) {
+	if r.Chance(10) {
 		// a non-PASSIVE checkpoint that fails after its PRAGMA ran: the application holds the write lock
 		// longer than litestream's busy timeout (PRAGMA wait + bookkeeping write wait); it then commits
 		// and goes idle: one re-base snapshot, then silence
 		h.Ops = append(h.Ops, Op{K: "sync"}, Op{K: "cwhold", A: 3000 + r.Intn(600), B: 10},
 			Op{K: "lckpt", S: []string{"TRUNCATE", "RESTART", "FULL"}[r.Intn(3)]}, Op{K: "cwait"})
+		if r.Chance(50) {
+			// a snapshot is requested while the failed checkpoint is still unresolved (it is refused), then the
+			// application writes past the thresholds again: later syncs must still checkpoint
+			h.Ops = append(h.Ops, Op{K: "snap"})
+			for i, k := 0, 2+r.Intn(3); i < k; i++ {
+				h.Ops = append(h.Ops, Op{K: "ins", A: 2 + r.Intn(6), B: ps + r.Intn(2*ps)}, Op{K: "sync"})
+			}
+		}
 		if r.Chance(50) {
 			h.Ops = append(h.Ops, genAppOp(r, ps))
 		}
